@@ -420,6 +420,13 @@ func (ft *funcTrans) instrMods(in ssa.Instruction, li *loopInfo) {
 		if callee != nil && ft.isMarker(callee) {
 			return
 		}
+		if callee != nil && strings.HasPrefix(callee.String(), "(*encoding/xml.Encoder).Encode") {
+			if _, ok := w.P.Spec.Ghosts["emitN"]; ok {
+				li.modHeaps["G_ghost.emitN"] = true
+				li.modHeaps["G_ghost.emitName"] = true
+				return
+			}
+		}
 		c := ft.calleeContract(com)
 		if (c == nil || !c.HasAssigns) && callee != nil && ft.p.writesOnlyFresh(callee) {
 			return
